@@ -43,6 +43,7 @@ MUTANTS = [
     ("C14", "processor/trigger_handler.py", "        if self.__hooks_installed:\n            sys.settrace(self.__old_sys_trace)", "        if True:\n            sys.settrace(self.__old_sys_trace)"),
     ("C14", "processor/trigger_handler.py", "            threading.settrace(self.__old_thread_trace)\n", "            threading.settrace(self.__old_sys_trace)\n"),
     ("C14", "processor/trigger_handler.py", "        self.__inert = True\n", ""),
+    ("C03", "processor/trigger_handler.py", "                actions += trigger.actions\n", "                actions = trigger.actions\n"),
     ("C17", "processor/context/metric_action.py", "        if self.__has_metric_processor():\n            return super().can_trigger()\n        return False", "        return super().can_trigger()"),
 ]
 if len(sys.argv) > 1:
